@@ -34,6 +34,13 @@ def frames(flow, rng):
     seg6 = tcp_segment(c6, s6, o6.client.port, 443, 5, 6, PSH | ACK, b"B" * 32)
     ext = struct.pack("!BBHI", 6, 0, 1, 99)
     add("ip6_fragment", sm + cm + b"\x86\xdd" + struct.pack("!IHBB16s16s", 6 << 28, len(ext) + len(seg6), 44, 64, c6, s6) + ext + seg6)
+    # an atomic fragment (Fragment header, offset 0, no more fragments) followed by Destination Options, then UDP
+    udp6 = struct.pack("!HHHH", 40009, 50009, 8 + 12, 0) + b"hello world!"
+    chain = struct.pack("!BBHI", 60, 0, 0, 7) + struct.pack("!BB", 17, 0) + b"\x01\x04\x00\x00\x00\x00" + udp6
+    add("ip6_atomic_fragment_dstopts", sm + cm + b"\x86\xdd" + struct.pack("!IHBB16s16s", 6 << 28, len(chain), 44, 64, c6, s6) + chain)
+    # hop-by-hop options + routing header (type 253, no segments left) + TCP data of other endpoints
+    chain2 = struct.pack("!BB", 43, 0) + b"\x01\x04\x00\x00\x00\x00" + struct.pack("!BBBB", 6, 0, 253, 0) + b"\x00" * 4 + seg6
+    add("ip6_hbh_routing", sm + cm + b"\x86\xdd" + struct.pack("!IHBB16s16s", 6 << 28, len(chain2), 0, 64, c6, s6) + chain2)
     for n in (0, 1, 13):
         add("runt_%d" % n, bytes(rng.getrandbits(8) for _ in range(n)))
     add("eth_header_only", sm + cm + b"\x08\x00")
